@@ -37,7 +37,8 @@ RULE = ("trim spaces: rank = (mixed-radix number of the cell letters of the rast
 ASSUMPTIONS = [
     "rasters whose every cell is excluded (trim) or that hold none of the requested ids (crop) have no minimal window: "
     "not asserted (counters.*_not_asserted)",
-    "numpy-backed rasters; zones and values of crop have the same shape; zone ids are integers",
+    "numpy-backed rasters; zones and values of crop have the same shape; zone CELLS hold integers; requested ids are integers, "
+    "except in the '+x' id lists (all-float lists with fractions / an absent id, which equal no cell)",
     "memory layout: spaces without a layout suffix pass C-contiguous arrays; the suffixed ones pass the same logical raster "
     "as F = np.asfortranarray, T = the view returned by DataArray.transpose(*dims) of a DataArray holding the transposed "
     "C-ordered array under the swapped dims, S = every second column of a C-ordered array twice as wide (neither C- nor "
@@ -145,13 +146,15 @@ def cast_image(e, dtype):
 # list and as tuple; 'perms' = every permutation, list / tuple alternating; 'alt' = each subset once, ascending list or
 # descending tuple alternating
 # a '+d' suffix adds the lists with REPEATED ids (every sequence of length 2..3 over the alphabet that is not repetition-free,
-# list / tuple alternating), '+d2' only the doubles (a, a)
+# list / tuple alternating), '+d2' only the doubles (a, a), '+x' all-float lists that pair an id with fractions next to it (a +- 0.5,
+# a +- 0.9) or with the absent id 7: those numbers equal no cell, the window is that of the ids that do
 CROP = {
     "quick": [((1, 1), "i8", "f8", "both+d"), ((1, 6), "i8", "f8", "both+d"), ((6, 1), "f8", "i8", "both+d"),
               ((3, 3), "i8", "f8", "alt+d2"), ((2, 4), "f8", "i8", "perms+d2"),
               ((2, 3), "i8", "f8", "perms+d", ("F", "F")), ((3, 2), "i8", "f8", "perms+d", ("F", "F")),
               ((2, 3), "f8", "i8", "perms+d", ("T", "T")), ((3, 2), "f8", "i8", "perms+d", ("T", "T")),
-              ((3, 4), "i8", "f8", "perms+d2", ("F", "F"), (0, 1))],
+              ((3, 4), "i8", "f8", "perms+d2", ("F", "F"), (0, 1)),
+              ((2, 3), "i4", "f8", "alt+x"), ((1, 5), "i8", "f8", "alt+x"), ((3, 2), "f8", "i8", "alt+x")],
 }
 CROP["thorough"] = CROP["quick"] + [((3, 4), "i8", "f8", "alt"), ((3, 3), "f8", "f8", "both+d"), ((2, 5), "f8", "f8", "alt+d2"),
                                     ((4, 2), "i4", "f4", "both"), ((3, 2), "i4", "f4", "both"),
@@ -177,6 +180,8 @@ def id_spellings(alphabet, mode):
             rep = [(a, a) for a in alphabet]
         elif dup == "d":
             rep = [q for k in (2, 3) for q in itertools.product(alphabet, repeat=k) if len(set(q)) < k]
+        elif dup == "x":        # all-float lists pairing an id with a NON-INTEGRAL or ABSENT number (equal to no cell of integer zones)
+            rep = [q for a in alphabet for q in ((float(a), a + 0.5), (a - 0.5, float(a)), (float(a), 7.0), (a + 0.9, float(a), a - 0.9))]
         else:
             raise ValueError(dup)
         return id_spellings(alphabet, mode) + [as_list(q) if i % 2 else as_tuple(q) for i, q in enumerate(rep)]
